@@ -560,7 +560,39 @@ fn source_plane(rep: &Report, per_form: usize, core: bool, seed: u64) {
     });
 }
 
+/// the lenient direction: a shift / rotate count is an unsigned byte number or CL. Every other register in the count
+/// position must be refused by the assembler -- accepted, the line would run as a shift by CL (or by something else)
+fn count_operand_must_be_cl(rep: &Report) {
+    let data = "vbq: db 1\nvwq: dw 2\n";
+    let mut n = 0u64;
+    for mn in ["shl", "sal", "shr", "sar", "rol", "ror", "rcl", "rcr", "SHL", "ROR"] {
+        for dst in ["ax", "bl", "word [bx]", "byte [si]", "word vwq", "byte vbq", "word es[di,2]"] {
+            for cnt in ["al", "ah", "bl", "bh", "ch", "dl", "dh", "DL", "cx", "ax", "dx"] {
+                n += 1;
+                let text = format!("{}start:\n{} {}, {}\n", data, mn, dst, cnt);
+                rep.eval(1);
+                if let Ok(a) = crate::asm::assemble(&text) {
+                    rep.fail(crate::report::Failure {
+                        sig: format!("src:{}:count-register-accepted", mn.to_ascii_lowercase()),
+                        what: "C02: a shift / rotate whose count is written as a register other than CL is accepted by the assembler".into(),
+                        witness: format!("{{\"kind\": \"src\", \"source\": {}, \"emitted\": {}}}", json_str(&text), json_str(&format!("{:?}", a.code))),
+                        core_item: Some(format!("{}|{}|{}", mn, dst, cnt)),
+                    });
+                }
+            }
+        }
+    }
+    // control: the documented forms are accepted
+    for (dst, cnt) in [("ax", "cl"), ("word vwq", "CL"), ("byte vbq", "3"), ("word [bx]", "cl")] {
+        if crate::asm::assemble(&format!("{}start:\nrol {}, {}\n", data, dst, cnt)).is_err() {
+            rep.inconclusive("documented shift form refused");
+        }
+    }
+    rep.count("shift / rotate lines with a count register other than CL (must be refused)", n);
+}
+
 pub fn run(rep: &Report) {
+    count_operand_must_be_cl(rep);
     core_fn_plane(rep);
     call_order_plane(rep);
     ins_plane(rep, 24, true, 0xC02);
